@@ -47,7 +47,7 @@ def invoke_strategy(sub):
         sub.map(lambda s: ["pos", s]),
         sub.map(lambda s: ["pos", s]),
         st.tuples(st.sampled_from(["k", "key", "n m", "1", "2", "3", "02",
-                                   "é"]), sub, pads).map(
+                                   "é", "0", "00", "-1"]), sub, pads).map(
             lambda t: ["named", t[0], t[1], t[2]]),
     )
     return st.tuples(st.lists(arg, max_size=4),
@@ -80,6 +80,34 @@ def args_case(draw):
         lib[a]["body"].append(["C", b, draw(arglist)])
     page.append(["C", chain[0], draw(arglist)])
     return lib, page
+
+
+KEY_SHAPES = ["0", "00", "000", "1", "01", "2", "-1", "+1", "1.0", "k", "é",
+              "1 1"]
+KEY_SHARDS = 8
+
+
+def key_shape_cases():
+    """{{w|K1=a|K2=b}} with Template:w = {{#invoke:echo|full|K1=c|K2=d}} and
+    the same one wrapper further out: names that are, or only look like,
+    positive integers (zero, padded zero, signs, decimals) in every pair."""
+    pads = ["", "", "", ""]
+    for k1 in KEY_SHAPES:
+        for k2 in KEY_SHAPES:
+            outer = [["named", k1, [["T", "a"]], pads],
+                     ["named", k2, [["T", "b"]], pads]]
+            # inner newlines in named values are kept (only the edges are
+            # trimmed); the second value ends in one
+            inner = [["named", k1, [["T", "c\nc2"]], pads],
+                     ["named", k2, [["T", "d"]], ["", " ", "\n", "\n"]]]
+            inv = ["INV", "echo", "full", inner]
+            lib1 = {"ta": {"body": [inv], "wrapper": "plain", "junk": ""}}
+            yield lib1, [["C", "ta", outer]]
+            lib2 = {"ta": {"body": [["C", "tb", outer]], "wrapper": "plain",
+                           "junk": ""},
+                    "tb": {"body": [["INV", "echo", "full", []]],
+                           "wrapper": "plain", "junk": ""}}
+            yield lib2, [["C", "ta", [["pos", [["T", "z"]]]]]]
 
 
 def invoke_model(it, n, frame, selective):
@@ -359,6 +387,12 @@ def shard(idx, seed, n_a, n_b, known):
         if status == "viol":
             record(detail[0], detail[1],
                    {"kind": "args", "lib": lib, "page": page}, len(text))
+
+    # every ordered pair of argument-name shapes on a wrapper call and on the
+    # invocation itself, seen from the module at wrapper depth 1 and 2
+    for j, case in enumerate(key_shape_cases()):
+        if j % KEY_SHARDS == idx % KEY_SHARDS and (idx < KEY_SHARDS):
+            body_a(case)
 
     hyp.search(args_case(), body_a, n_a, seed * 1000 + idx, shrink=False)
 
